@@ -239,6 +239,7 @@ func init() {
 	}
 	reg("(*sync.Cond).Wait", func(m *machine, fr *frame, fn *ssa.Function, a []value) (value, bool) {
 		p := a[0].(ptr)
+		m.yieldPoint(fr, "cond") // others may run between the caller's predicate check and the wait
 		s := condOf(m, p)
 		// enqueue before unlocking: atomically "add to notify list, then unlock"
 		s.waiters = append(s.waiters, m.cur)
